@@ -921,9 +921,8 @@ def items_for(ctx):
         cmps = [">", "=="]
     else:
         l2 = [("reg", "x"), ("loc", "x"), ("reg", "sr"), ("reg", "w"),
-              ("loc", "h"), ("const", 2.5), ("const", 0.29), ("const", -2.5),
-              ("const", 3)]
-        d2 = [("reg", "x"), ("reg", "sr"), ("loc", "i"), ("loc", "x")]
+              ("loc", "h"), ("const", 0.29), ("const", -2.5), ("const", 3)]
+        d2 = [("reg", "x"), ("reg", "sr"), ("loc", "i")]
         cap = 250
         cmps = list(CMP)
     m = 0
@@ -1013,7 +1012,11 @@ def run(ctx):
         "Fraction(repr(c))",
         "Python read-back of a fixed variable only has to round to the same "
         "five-digit decimal",
-        "32-bit register operands are planted zero-extended"]
+        "32-bit register operands are planted zero-extended",
+        "programs the generator refuses (TypeError/AssembleError/"
+        "struct.error) are counted, not judged; an internal error of the "
+        "generator (AssertionError, AttributeError ...) is reported as a "
+        "violation"]
     return res
 
 
